@@ -71,7 +71,8 @@ def rand_class(rng, nmax=12, dup=False, mixed=False):
         elif r < 0.24:
             decos = ["classmethod"]
         elif r < 0.34:
-            decos = [rng.choice(["property", "abstractmethod", "cache"])]
+            # also decorators that are calls or attributes (getDecoratorName: Call with a Name callee, Call with another callee, Attribute)
+            decos = [rng.choice(["property", "abstractmethod", "cache", "lru_cache(maxsize=8)", "functools.cache", "app.route(1)", "staticmethod_like", "wraps(staticmethod)"])]
         # stacked decorators: the static/class marker may sit above, below or between other decorators
         if decos and rng.random() < 0.4:
             for _ in range(rng.choice([1, 1, 2])):
